@@ -676,7 +676,19 @@ class SyncTask:
         for r in eng.results.values():
             r.witness, r.replayed = None, False
             if r.status == "refuted" and r.detail.startswith("RELAXED") and not getattr(self, "keep_relaxed", False):
-                r.status = "undecided"  # engine policy: a relaxed model that is not replayed on the real code proves nothing
+                # engine policy: a relaxed model proves nothing unless it is confirmed on the real code.  Confirmation here: the SYNC
+                # relation fails on an instrumented run of the real solver inside this very helper (native_sync_monitor)
+                mine = []
+                if ".sync." in r.name:
+                    try:
+                        mine = [f for f in native_sync_monitor() if f["helper"] == self.qual.split(".")[-1]]
+                    except Exception:  # noqa: BLE001
+                        mine = []
+                if mine:
+                    r.witness, r.replayed = dict(native_run=mine[0]), True
+                    r.detail = f"confirmed on a real run: {mine[0]} | " + r.detail
+                else:
+                    r.status = "undecided"
         return eng
 
 
@@ -1234,3 +1246,173 @@ def native_cross_check():
                 events=[[a, b, [str(v) if not isinstance(v, int) else v for v in c]] for a, b, c in events],
                 contract_post_holds=bool(row_ok and sign_plus), canary_sign_untouched_holds=bool(int(T.phase[1]) == 1),
                 contract_relation_holds=bool(rel and tab_cnots), canary_relation_holds=bool(rel_swapped), first_ops_on_emitter_wires=ops_front)
+
+
+# =============================================================================================
+# native replay for relaxed refutations: the SYNC relation evaluated on instrumented runs of the REAL solver
+# =============================================================================================
+_NATIVE = {}
+
+
+def native_sync_monitor():
+    """Runs the real TimeReversedSolver.solve on a few small targets with recorders around transform.* (top-level calls), the four
+    circuit helpers and _change_pauli_type, and evaluates SYNC concretely on the whole run (SYNC is closed under concatenation, and
+    _add_gates_from_str obeys the same pairing).  -> list of failures [{helper, target, what}] (empty: the relation holds on every run).
+    Used ONLY to confirm a refutation whose counter-model came from the relaxed (quantifier-free) query - never to discharge anything."""
+    if "fails" in _NATIVE:
+        return _NATIVE["fails"]
+    import importlib
+    import networkx as nx
+    import numpy as np
+
+    trs = importlib.import_module(TRS)
+    tr = trs.transform
+    cls = trs.TimeReversedSolver
+    fails = []
+    targets = {"path4": nx.path_graph(4), "star4": nx.star_graph(3), "cycle5": nx.cycle_graph(5), "K4": nx.complete_graph(4),
+               "ladder": nx.ladder_graph(3)}
+    helpers = ["_transform_generator_emitters", "_single_out_emitter", "_add_photon_absorption", "_time_reversed_measurement", "_add_gates_from_str"]
+    try:
+        from graphiq.state import QuantumState
+        from graphiq.metrics import Infidelity
+        from graphiq.backends.stabilizer.compiler import StabilizerCompiler
+    except Exception as e:  # noqa: BLE001
+        _NATIVE["fails"] = [dict(helper="*", target="import", what=f"{type(e).__name__}: {e}")]
+        return _NATIVE["fails"]
+    for tname, gr in targets.items():
+        events, stack, depth, in_cpt, active = [], ["solve"], [0], [None], [False]
+        saved_g, saved_m, saved_inv = {}, {}, []
+
+        def mk_gate(fn, g):
+            def wrapped(t, *a):
+                if depth[0] == 0 and active[0]:
+                    if in_cpt[0] is not None:
+                        in_cpt[0]["gates"].append((g, tuple(int(v) for v in a)))
+                    else:
+                        events.append(dict(side="tab", name=g, args=tuple(int(v) for v in a), helper=stack[-1]))
+                depth[0] += 1
+                try:
+                    return fn(t, *a)
+                finally:
+                    depth[0] -= 1
+            return wrapped
+
+        def mk_circ(fn, nm):
+            def wrapped(self, circuit, *a):
+                ev = dict(side="circ", name=nm, args=a, helper=stack[-1])
+                if nm == "one_qubit":
+                    ev["src"], ev["classes"], ev["args"] = a[0], [c.__name__ for c in a[0]], (None, int(a[1]))
+                else:
+                    ev["args"] = tuple(int(v) for v in a)
+                events.append(ev)
+                return fn(self, circuit, *a)
+            return wrapped
+
+        def mk_cpt(fn):
+            def wrapped(self, tableau, row, column, result="z"):
+                ev = dict(side="tab", name="cpt", args=(int(row), int(column)), gates=[], helper=stack[-1])
+                in_cpt[0] = ev
+                try:
+                    ret = fn(self, tableau, row, column, result)
+                finally:
+                    in_cpt[0] = None
+                ev["ret"], ev["classes"] = ret, [c.__name__ for c in ret]
+                events.append(ev)
+                return ret
+            return wrapped
+
+        def mk_helper(fn, nm):
+            def wrapped(self, *a, **k):
+                stack.append(nm)
+                try:
+                    return fn(self, *a, **k)
+                finally:
+                    stack.pop()
+            return wrapped
+
+        try:
+            for g in ONE_Q_GATES + TWO_Q_GATES:
+                saved_g[g] = getattr(tr, g)
+                setattr(tr, g, mk_gate(saved_g[g], g))
+            for m_, nm in ((Q_ONE, "one_qubit"), (Q_EE, "cnot_ee"), (Q_EP, "cnot_ep"), (Q_MEAS, "meas")):
+                short = m_.split(".")[-1]
+                saved_m[short] = getattr(cls, short)
+                setattr(cls, short, mk_circ(saved_m[short], nm))
+            saved_m["_change_pauli_type"] = cls._change_pauli_type
+            cls._change_pauli_type = mk_cpt(saved_m["_change_pauli_type"])
+            for h in helpers:
+                saved_m[h] = getattr(cls, h)
+                setattr(cls, h, mk_helper(saved_m[h], h))
+            target = QuantumState(gr, rep_type="g")
+            solver = cls(target=target, metric=Infidelity(target=target), compiler=StabilizerCompiler())
+            n_p = solver.n_photon
+            real_compile = solver.compiler.compile
+
+            def compile_unrecorded(*a, **k):  # the simulation of the finished circuit is not part of the construction
+                active[0] = False
+                return real_compile(*a, **k)
+
+            solver.compiler.compile = compile_unrecorded
+            real_inverse = trs.sfs.inverse_circuit
+
+            def inverse_unrecorded(t):  # synthesis on a COPY of the working tableau: not a gate on the working tableau
+                was, active[0] = active[0], False
+                try:
+                    return real_inverse(t)
+                finally:
+                    active[0] = was
+
+            trs.sfs.inverse_circuit = inverse_unrecorded
+            saved_inv.append(real_inverse)
+            active[0] = True  # only the construction inside solve() is recorded (not the target's conversion in __init__)
+            try:
+                solver.solve()
+            except Exception as e:  # noqa: BLE001 - a mutant may break the protocol; the events recorded so far are still judged
+                events.append(dict(side="note", name="raised", what=f"{type(e).__name__}: {e}", helper=stack[-1]))
+        except Exception as e:  # noqa: BLE001
+            fails.append(dict(helper="*", target=tname, what=f"set-up failed: {type(e).__name__}: {e}"))
+            continue
+        finally:
+            for g, fn in saved_g.items():
+                setattr(tr, g, fn)
+            for m_, fn in saved_m.items():
+                setattr(cls, m_, fn)
+            if saved_inv:
+                trs.sfs.inverse_circuit = saved_inv[0]
+        tab = [e for e in events if e["side"] == "tab" and not (e["name"] == "cpt" and not e["gates"])]
+        cir = [e for e in events if e["side"] == "circ" and not (e["name"] == "one_qubit" and not e["classes"])]
+        pos = 0
+        for ce in cir:
+            seg = tab[pos:pos + ARITY[ce["name"]]]
+            pos += ARITY[ce["name"]]
+            bad = None
+            if len(seg) < ARITY[ce["name"]]:
+                bad = "no tableau counterpart"
+            elif ce["name"] == "one_qubit":
+                te = seg[0]
+                if te["name"] == "cpt":
+                    if ce["src"] is not te["ret"] or ce["args"][1] != te["args"][1] or any(q != (te["args"][1],) for _, q in te["gates"]):
+                        bad = f"wrapper {ce['classes']}@{ce['args'][1]} vs _change_pauli_type column {te['args'][1]} gates {te['gates']}"
+                elif te["name"] in ONE_Q_GATES:
+                    if not _inverts(ce["classes"], te["name"]) or te["args"] != (ce["args"][1],):
+                        bad = f"wrapper {ce['classes']}@{ce['args'][1]} vs {te['name']}{te['args']}"
+                else:
+                    bad = f"wrapper vs {te['name']}"
+            elif ce["name"] in ("cnot_ee", "cnot_ep"):
+                te = seg[0]
+                want = (n_p + ce["args"][0], n_p + ce["args"][1]) if ce["name"] == "cnot_ee" else (n_p + ce["args"][0], ce["args"][1])
+                if te["name"] != "cnot_gate" or te["args"] != want:
+                    bad = f"{ce['name']}{ce['args']} vs {te['name']}{te['args']} (expected cnot_gate{want})"
+            else:
+                h_, cx = seg
+                if (h_["name"], h_["args"], cx["name"], cx["args"]) != ("hadamard_gate", (n_p + ce["args"][0],), "cnot_gate", (n_p + ce["args"][0], ce["args"][1])):
+                    bad = f"meas{ce['args']} vs {h_['name']}{h_['args']}, {cx['name']}{cx['args']}"
+            if bad:
+                fails.append(dict(helper=ce["helper"], target=tname, what=bad))
+                break
+        else:
+            if pos != len(tab):
+                te = tab[pos]
+                fails.append(dict(helper=te["helper"], target=tname, what=f"tableau gate {te['name']}{te['args']} has no circuit operation"))
+    _NATIVE["fails"] = fails
+    return fails
